@@ -243,7 +243,7 @@ def handleHist : Handler := fun inp out => do
     | some as => as.map (·.address) == w.ledger.accounts.filter (fun a => (firstUsage w.ledger a).isSome) &&
         as.all fun a => firstUsage w.ledger a.address == some a.firstUsage && insertionDate w.ledger a.address == some a.insertionDate &&
           a.metadata == metaAt w.ledger (.account a.address) none
-  let sig := first? [(c01, "C01:snapshot-not-conserved"), (c02, "C02:snapshot-volumes-not-fold"),
+  let sig := pickSig (focusOf inp) [(c01, "C01:snapshot-not-conserved"), (c02, "C02:snapshot-volumes-not-fold"),
     (c03, "C03:snapshot-pcv-not-state-after"), (c03m, "C03:snapshot-moves-not-running"),
     (c04, "C04:snapshot-pcev-invariant"), (c05, "C05:snapshot-moves-window-not-fold"),
     (c17t, "C17:snapshot-tx-metadata-history"), (c17a, "C17:snapshot-account-metadata-history"), (c15, "C15:snapshot-revert-shape"), (c18, "C18:snapshot-accounts")]
